@@ -4,7 +4,7 @@
 //	c09 run <scripts.json> <outdir>
 //
 // scripts.json: [{"config":{...}, "histories":[[event,...],...]}, ...]
-// event: {"ev":"reset","now":t} | {"ev":"adv","d":d} | {"ev":"req","r":..,"g":..} |
+// event: {"ev":"reset","now":t} | {"ev":"adv","d":d} | {"ev":"setw","r":..,"w":ticks} | {"ev":"req","r":..,"g":..} |
 //
 //	{"ev":"conc","reqs":[{"r":..,"g":..},...]}   (handled by concurrent goroutines)
 //
@@ -17,6 +17,7 @@ import (
 	"os"
 	"path/filepath"
 	"sync"
+	"sync/atomic"
 	"time"
 
 	"lunar/engine/actions"
@@ -35,7 +36,7 @@ import (
 
 const (
 	tick      = 500 * time.Millisecond
-	baseTicks = int64(3_400_000_080) // multiple of 120: grid alignment of every window used is preserved
+	baseTicks = int64(3_400_005_840) // multiple of 9240 = lcm(2..12 even, 14, 22): grid alignment of every window used is preserved
 	header    = "X-Group"
 )
 
@@ -60,7 +61,9 @@ type Event struct {
 	D    int64  `json:"d,omitempty"`
 	R    string `json:"r,omitempty"`
 	G    string `json:"g,omitempty"`
+	Wn   int    `json:"w,omitempty"`
 	Reqs []Req  `json:"reqs,omitempty"`
+	N    int    `json:"n,omitempty"`
 }
 
 type Script struct {
@@ -162,7 +165,11 @@ func main() {
 	id := 0
 	for si, sc := range scripts {
 		tr := vh.NewTrace()
-		tr.Add(vh.Ev{"ev": "config", "groups": sc.Config.Groups, "W": sc.Config.W, "Allowed": sc.Config.Allowed,
+		w0 := map[string]int{}
+		for r, w := range sc.Config.W {
+			w0[r] = w
+		}
+		tr.Add(vh.Ev{"ev": "config", "groups": sc.Config.Groups, "W": w0, "Allowed": sc.Config.Allowed,
 			"Pct": sc.Config.Pct, "DefBehav": sc.Config.DefBehav, "DefPct": sc.Config.DefPct})
 		rn := &runner{cfg: sc.Config, rem: map[string]config.ScopedRemedy{}}
 		for r := range sc.Config.W {
@@ -175,23 +182,63 @@ func main() {
 				case "reset":
 					now = e.Now
 					rn.fresh(now)
+					for r, w := range w0 {
+						rn.cfg.W[r] = w
+						rn.rem[r] = remedyOf(rn.cfg, r)
+					}
 					tr.Add(vh.Ev{"ev": "reset", "now": now})
 				case "adv":
 					now += e.D
 					rn.clk.Set(at(now))
 					tr.Add(vh.Ev{"ev": "adv", "d": e.D})
+				case "setw":
+					// apply_policies with another window length: same remedy name, new configuration
+					rn.cfg.W[e.R] = e.Wn
+					rn.rem[e.R] = remedyOf(rn.cfg, e.R)
+					tr.Add(vh.Ev{"ev": "setw", "r": e.R, "w": e.Wn})
 				case "req":
 					out := rn.request(e.R, e.G)
 					tr.Add(vh.Ev{"ev": "req", "r": e.R, "g": e.G, "out": out})
+				case "storm":
+					// n overlapping requests for one key; only the number of passes is recorded
+					var wg sync.WaitGroup
+					var arrived, passes, bad atomic.Int32
+					for i := 0; i < e.N; i++ {
+						wg.Add(1)
+						go func() {
+							defer wg.Done()
+							arrived.Add(1)
+							for spins := 0; arrived.Load() < int32(e.N) && spins < 1_000_000; spins++ {
+							}
+							switch rn.request(e.R, e.G) {
+							case "pass":
+								passes.Add(1)
+							case "block":
+							default:
+								bad.Add(1)
+							}
+						}()
+					}
+					wg.Wait()
+					if bad.Load() > 0 {
+						vh.Die("storm: unexpected action kind")
+					}
+					tr.Add(vh.Ev{"ev": "batch", "r": e.R, "g": e.G, "n": e.N, "passes": passes.Load()})
 				case "conc":
 					var wg sync.WaitGroup
 					start := make(chan struct{})
+					var arrived atomic.Int32
+					n := int32(len(e.Reqs))
 					for _, q := range e.Reqs {
 						id++
 						wg.Add(1)
 						go func(i int, q Req) {
 							defer wg.Done()
 							<-start
+							// spin barrier: all goroutines enter the real code as simultaneously as possible
+							arrived.Add(1)
+							for spins := 0; arrived.Load() < n && spins < 1_000_000; spins++ {
+							}
 							b := tr.Stamp()
 							out := rn.request(q.R, q.G)
 							tr.AddAt(b, vh.Ev{"ev": "begin", "id": i, "r": q.R, "g": q.G, "out": out})
